@@ -8,15 +8,13 @@ structure St where
   fin : Bool := false   -- `end: AtomicBool`
 deriving Repr, BEq, Hashable
 
-/-- `fx = true` is the current tree (slot claimed atomically, FX1); `fx = false` the code before the fix.
-The two differ only in access granularity, hence only under thread interleaving (`Par/Take.lean`). -/
 inductive Loc (α : Type) where
   | sub0                       -- `call!(source, Handshake(..))`
   | done
   | greet0                     -- `Handshake(source) => source_talkback.store(Some(source))`
   | greet1                     -- `call!(sink, Handshake(talkback))`
-  | d0 (a : α)                 -- `Data(data) => if taken.load() < max`
-  | d1 (a : α)                 -- `let taken = taken.fetch_add(1) + 1`
+  | d0 (a : α)                 -- `Data(data) => if let Ok(taken) = taken.fetch_update(|t| (t < max).then(|| t + 1))` (one atomic step)
+  | d1 (a : α)                 -- only before fix 6a5bc56: `if taken.load() < max` was `d0`, `taken.fetch_add(1) + 1` was `d1`
   | d2 (a : α) (t : Nat)       -- `call!(sink, Data(data))`
   | d3 (t : Nat)               -- `if taken == max`
   | d3b                        -- `&& !end.load()`
@@ -30,12 +28,15 @@ inductive Loc (α : Type) where
   | x1 (u : Up)                -- `source_talkback.load().expect(..); call!(source_talkback, ..)`
 deriving Repr, BEq, Hashable
 
-def step {α} (max : Nat) (st : St) : Loc α → Act St (Loc α) α
+/-- `fx = true` is the current tree (the slot is claimed by one atomic read-modify-write, commit 6a5bc56); `fx = false` the
+code as found (`load`, then `fetch_add`). The two differ only in access granularity, hence only under thread interleaving
+(`Par/Take.lean`). -/
+def step {α} (max : Nat) (fx : Bool) (st : St) : Loc α → Act St (Loc α) α
   | .sub0 => .call (.subSrc 0) st .done
   | .done => .ret
   | .greet0 => .tau { st with tb := true } .greet1
   | .greet1 => .call (.greet 0) st .done
-  | .d0 a => if st.taken < max then .tau st (.d1 a) else .ret
+  | .d0 a => if st.taken < max then (if fx then .tau { st with taken := st.taken + 1 } (.d2 a (st.taken + 1)) else .tau st (.d1 a)) else .ret
   | .d1 a => .tau { st with taken := st.taken + 1 } (.d2 a (st.taken + 1))
   | .d2 a t => .call (.down 0 (.data a)) st (.d3 t)
   | .d3 t => if t = max then .tau st .d3b else .ret
@@ -59,7 +60,7 @@ def enter {α} : In α → Loc α
   | .srcDown _ .term => .fwd .term
   | .srcDown _ (.err e) => .fwd (.err e)
 
-def machine (α : Type) (max : Nat) : Machine St (Loc α) α α :=
-  { shape := {}, init := {}, enter := enter, step := step max }
+def machine (α : Type) (max : Nat) (fx : Bool := true) : Machine St (Loc α) α α :=
+  { shape := {}, init := {}, enter := enter, step := step max fx }
 
 end Cb.Take
